@@ -253,6 +253,13 @@ def register(chk):
     chk.add("wrappers", c08.ob_wrappers)
 
 
+def include_in(chk):
+    """this check's obligations registered inside a check of a layer above (framework.Check.include)"""
+    prog()
+    miller.prog()
+    register(chk)
+
+
 def main(argv=None):
     chk = Check("C01", "proof", argv)
     prog()
@@ -264,6 +271,9 @@ def main(argv=None):
                   "points outside the order-r subgroups are outside the claim (degenerate steps: no proper prefix of |x| is 0 or +-1 modulo r, as |x| < 2^64 < r)"]
     chk.trusted = ["T8 (Vercauteren's optimal-ate theorem; subfield factors vanish)", "T4 chord-and-tangent law", "C04 (tower arithmetic incl. multiply_by_c014, conjugate = q^6-Frobenius, frobenius_map)",
                    "C05/C06 for bilinearity in scalars", "engine/refpairing.py as the definition-level oracle for the generator value", "z3"]
+    # lower layers whose specifications this check relies on: their obligations are part of this check's claim (framework.Check.include)
+    for dep in ['C02', 'C04', 'C05']:
+        chk.include(dep)
     chk.run()
     chk.finish()
 
